@@ -417,6 +417,8 @@ def tables_chronological(res, gen):
 
 
 def run(res, tier, seed):
+    import l1b as _l1b
+    _l1b.AUTO_NOISE = 7919 * seed + 13      # random bytes in every record field the spec writer does not set
     rng = common.rng_for(seed, PROP)
     gen = common.gen_json()
     coq = []
